@@ -171,7 +171,7 @@ func TestC22(t *testing.T) {
 		"last line, line count, beyond, negative, MaxInt, overflow, not-a-number, addresses in every base, regex "+
 		"fragments incl. malformed, known/unknown memory and register keys, one-character tokens) x spacing (leading, "+
 		"trailing, repeated, blank, spaces only, tab) plus unknown commands; prompts are answered by scripted lines and "+
-		"then \"0\" for ever. After every line the screen is rendered for a terminal of 5-60 lines. Oracle: no panic, "+
+		"then a valid number for ever; besides single lines there are bursts of emulation steps and bursts of a block move followed by bounds/move commands. After every line the screen is rendered for a terminal of 5-60 lines. Oracle: no panic, "+
 		"processCommand returns nil (or the quit of the outermost mode). non-trivial = history reaching >=2 modes with "+
 		">=1 rejected line; distinct by (command, arity, argument class) cells covered")
 	defer col.Flush()
@@ -288,6 +288,34 @@ func TestC22(t *testing.T) {
 			"line":  func(t *rapid.T) { oneLine(t, "") },
 			"line2": func(t *rapid.T) { oneLine(t, "") },
 			"line3": func(t *rapid.T) { oneLine(t, "") },
+			"reorder": func(t *rapid.T) {
+				// a burst in the disassembler mode: a block move (header line to header
+				// line) followed by bounds / move commands on every kind of line, so that
+				// commands run against a listing that has just been rebuilt
+				if modeClass(ui.VerifModeName()) != "app" {
+					oneLine(t, "quit")
+					return
+				}
+				var headers []int
+				ln := 0
+				for _, b := range code.Blocks() {
+					headers = append(headers, ln)
+					ln += b.Num() + 2
+				}
+				if len(headers) >= 2 {
+					col.Case()
+					oneLine(t, fmt.Sprintf("move %d %d", headers[uniformInt(t, len(headers), "fromBlock")], headers[uniformInt(t, len(headers), "toBlock")]))
+				}
+				for i, n := 0, 1+uniformInt(t, 4, "nAfter"); i < n && modeClass(ui.VerifModeName()) == "app"; i++ {
+					col.Case()
+					a, b := uniformInt(t, lines+1, "lineA"), uniformInt(t, lines+1, "lineB")
+					if uniformInt(t, 2, "afterKind") == 0 {
+						oneLine(t, fmt.Sprintf("bounds %d", a))
+					} else {
+						oneLine(t, fmt.Sprintf("move %d %d", a, b))
+					}
+				}
+			},
 			"steps": func(t *rapid.T) {
 				// several emulation steps in a row so that execution gets somewhere
 				if modeClass(ui.VerifModeName()) != "emulate" {
